@@ -44,7 +44,13 @@ def _check_case(repo, case: S.SimCase, rank):
         for i in range(len(case.order_prices)):
             s[f"q{i}"] = Fraction(1)
         s["qr"] = Fraction(1)
-    outs = S.run_match_loop(repo, case, samples)
+    try:
+        outs = S.run_match_loop(repo, case, samples)
+    except AnalysisError as e:
+        if "while loop exceeded" in str(e):
+            return [("C02-R2", f"match-loop|nonterminating|{desc}",
+                     f"the matching loop does not terminate for {desc} (a touched order never becomes final)")], None
+        raise
     viols = []
     trace_sample = None
     for out in outs:
